@@ -103,7 +103,12 @@ func genModuleSet(r *prng.R, o genModOpts) *ModSet {
 		InitOf: map[int][]string{}, TopOf: map[int][]string{}, Calls: map[string]string{}, Visible: map[int][]string{},
 		ImportMods: map[string][]int{}, Extra: map[string][]string{}}
 	n := r.Range(2, 7)
-	// layout: some modules live in sub directories
+	// layout: some modules live in sub directories; "directory heavy" sets keep most modules in one directory
+	// that the root imports as a whole (members depend on each other and are also reached from outside)
+	dirHeavy := r.Chance(0.3)
+	if dirHeavy {
+		n = r.Range(4, 7)
+	}
 	dirs := []string{"", "", "", "pkg", "pkg/tief", "lib"}
 	for i := 0; i < n; i++ {
 		m := &gmModule{Idx: i}
@@ -111,7 +116,14 @@ func genModuleSet(r *prng.R, o genModOpts) *ModSet {
 			m.Path = "haupt.ddp"
 		} else {
 			d := ""
-			if r.Chance(0.35) {
+			if dirHeavy {
+				switch x := r.Intn(20); {
+				case x < 14:
+					d = "pkg"
+				case x < 16:
+					d = "pkg/tief"
+				}
+			} else if r.Chance(0.35) {
 				d = prng.Pick(r, dirs)
 			}
 			m.Path = filepath.Join(d, modTag(i)+".ddp")
@@ -207,7 +219,7 @@ func genModuleSet(r *prng.R, o genModOpts) *ModSet {
 		ms.Mods[0].Imports = append(ms.Mods[0].Imports, gmImport{Target: 1, Spelling: strings.TrimSuffix(ms.Mods[1].Path, ".ddp")})
 	}
 	// directory imports from the root: a directory that holds >=1 module
-	if r.Chance(0.3) {
+	if dirHeavy || r.Chance(0.3) {
 		for _, d := range []string{"pkg", "lib"} {
 			has := false
 			for _, m := range ms.Mods[1:] {
@@ -215,7 +227,7 @@ func genModuleSet(r *prng.R, o genModOpts) *ModSet {
 					has = true
 				}
 			}
-			if has && r.Chance(0.6) {
+			if has && (r.Chance(0.6) || (dirHeavy && d == "pkg")) {
 				rec := r.Bool()
 				// a module must not be imported twice by the same importer: drop the explicit imports the directory import covers
 				if !o.Faulty && !o.Clashes {
